@@ -73,10 +73,10 @@ def to_unstable(gaf_line, reference):
         if nd == ">" or nd == "<":
             orient = nd
             continue
-        if ":" in nd and "-" in nd:
-            tmp = nd.rstrip().split(":")
-            query_contig_name = tmp[0]
-            (query_start, query_end) = tmp[1].rstrip().split("-")
+        interval = re.match(r"^(.+):([0-9]+)-([0-9]+)$", nd.rstrip())
+        if interval:
+            # <contig>:<start>-<end>; the contig name itself may contain ':' or '-'
+            query_contig_name, query_start, query_end = interval.groups()
             split_contig = True
         else:
             query_start = gaf_line.path_start
